@@ -1427,4 +1427,248 @@ theorem parseLoop_keyspace (f : Nat) (indent : Str) (exp : Option Str) (k1 ws k2
     simp [List.any_append, isSpaceNB_isSpaceU hw]
   simp only [hany, if_true]
 
+/-! ## B.13 the last line without a final line feed -/
+
+theorem indexOfGo_single_none (c : Char) : ∀ (a : Str) (i : Nat), (∀ x ∈ a, x ≠ c) → indexOfGo [c] a i = none
+  | [], i, _ => by simp [indexOfGo]
+  | x :: a, i, h => by
+    have hx : (c == x) = false := by
+      have := h x (by simp)
+      simpa using fun e => this e.symm
+    simp only [indexOfGo, List.isPrefixOf, hx, Bool.false_and, Bool.false_eq_true, if_false]
+    exact indexOfGo_single_none c a (i + 1) (fun y hy => h y (by simp [hy]))
+
+theorem cut_single_none (c : Char) (a : Str) (h : ∀ x ∈ a, x ≠ c) : cut [c] a = (a, []) := by
+  unfold cut indexOf
+  rw [indexOfGo_single_none c a 0 h]
+
+theorem extractValue_plain_eof (L : Str) (m : Map) (lk : Env)
+    (hq : ∀ c, L.head? = some c → (c == '"' || c == '\'') = false)
+    (hnl : ∀ x ∈ L, x ≠ '\n') :
+    extractValue L m lk = liftVars (expandVars (trimRightU (cut [' ', '#'] L).1) m lk) [] := by
+  unfold extractValue
+  have hquoted : quotePrefix L = none := by
+    cases hL : L with
+    | nil => rfl
+    | cons c r =>
+      have := hq c (by rw [hL]; rfl)
+      simp [quotePrefix, this]
+  simp only [hquoted, cut_single_none '\n' L hnl]
+  unfold liftVars
+  rfl
+
+theorem extractValue_unq_eof (s trail : Str) (cmt : Option Str) (m : Map) (lk : Env)
+    (hs : unqOk s = true) (ht : nbAll trail = true) (hc : cmtOk cmt = true)
+    (hcmt : (match cmt with
+      | some _ => !s.isEmpty && trail.getLast? == some ' '
+      | none => true) = true) :
+    extractValue ((s ++ (trail ++ renderCmt cmt)).dropWhile isSpaceNB) m lk =
+      liftVars (expandVars s m lk) [] := by
+  obtain ⟨hnl, hsp, hlast, hhead⟩ := unqOk_parts hs
+  cases s with
+  | nil =>
+    cases cmt with
+    | some t => simp at hcmt
+    | none =>
+      simp only [renderCmt, List.nil_append, List.append_nil]
+      have : trail.dropWhile isSpaceNB = [] := by
+        have := dropWhile_append_all (p := isSpaceNB) (l := trail) [] (fun x hx => List.all_eq_true.mp ht x hx)
+        simpa using this
+      rw [this, extractValue_plain_eof [] m lk (by simp) (by simp)]
+      have e : cut [' ', '#'] ([] : Str) = ([], []) := cut_none [] rfl
+      rw [e]; rfl
+  | cons c r =>
+    obtain ⟨hcq, hcnb⟩ := hhead c r rfl
+    rw [List.cons_append, dropWhile_head_neg hcnb, ← List.cons_append]
+    rw [extractValue_plain_eof _ m lk (by intro x hx; simp at hx; subst hx; exact hcq)
+      (by
+        intro x hx
+        simp only [List.mem_append] at hx
+        rcases hx with hx | hx | hx
+        · exact hnl x hx
+        · exact nb_no_nl ht x hx
+        · exact cmt_no_nl hc x hx)]
+    congr 2
+    cases cmt with
+    | none =>
+      simp only [renderCmt, List.append_nil]
+      rw [cut_none _ (noSpHash_append _ _ hsp (nb_no_hash ht))]
+      simp only
+      rw [trimRightU_append_ws _ _ (nbAll_spaceU ht), trimRightU_id _ hlast]
+    | some t =>
+      simp only [Bool.and_eq_true, beq_iff_eq] at hcmt
+      obtain ⟨t', ht'⟩ : ∃ t', trail = t' ++ [' '] := by
+        have := hcmt.2
+        rw [List.getLast?_eq_some_iff] at this
+        exact this
+      subst ht'
+      have ht2 : nbAll t' = true := by
+        simp only [nbAll, List.all_append, Bool.and_eq_true] at ht
+        exact ht.1
+      have hre2 : (c :: r) ++ (t' ++ [' '] ++ renderCmt (some t)) = ((c :: r) ++ t') ++ ' ' :: '#' :: t := by
+        simp [renderCmt]
+      rw [hre2, cut_sphash _ _ (noSpHash_append _ _ hsp (nb_no_hash ht2))]
+      simp only
+      rw [trimRightU_append_ws _ _ (nbAll_spaceU ht2), trimRightU_id _ hlast]
+
+theorem stmtL_true_no_nl : ∀ t : Str, t.all (· != '\n') = true → stmtL true t = []
+  | [], _ => rfl
+  | a :: t, h => by
+    simp only [List.all_cons, Bool.and_eq_true, bne_iff_ne, ne_eq] at h
+    have ha : (a == '\n') = false := by simpa using h.1
+    simp only [stmtL, ha, Bool.false_eq_true, if_false]
+    exact stmtL_true_no_nl t h.2
+
+theorem stmtL_ws_eof (ws : Str) (h : nbAll ws = true) : stmtL false ws = [] := by
+  have := stmtL_skip_ws ws [] (nbAll_spaceU h)
+  simpa [stmtL] using this
+
+theorem stmtL_tail_eof (trail : Str) (cmt : Option Str) (ht : nbAll trail = true) (hc : cmtOk cmt = true) :
+    stmtL false (trail ++ renderCmt cmt) = [] := by
+  rw [stmtL_skip_ws _ _ (nbAll_spaceU ht)]
+  cases cmt with
+  | none => rfl
+  | some t =>
+    simp only [renderCmt]
+    have : isSpaceU '#' = false := by decide
+    rw [stmtL, if_neg (by simp [this])]
+    simp only [beq_self_eq_true, if_true]
+    exact stmtL_true_no_nl t hc
+
+theorem parseLoop_of_stmtL_nil (f : Nat) (src : Str) (m : Map) (lk : Env) (h : stmtL false src = []) :
+    parseLoop (f + 1) src m lk = .ok m := by
+  rw [parseLoop_congr (f + 1) src [] m lk (by rw [h]; rfl)]
+  exact parseLoop_nil f m lk
+
+theorem parseLoop_assign_eof (f : Nat) (indent : Str) (exp : Option Str) (key ws1 : Str) (sep : Sep) (ws2 : Str) (v : Value)
+    (trail : Str) (cmt : Option Str) (m : Map) (lk : Env)
+    (hwf : (Line.assign indent exp key ws1 sep ws2 v trail cmt).wf = true) :
+    parseLoop (f + 2) (indent ++ (renderExp exp ++ (key ++ (ws1 ++ sep.char :: (ws2 ++ (v.render ++ (trail ++ renderCmt cmt))))))) m lk =
+      assignOut (v.eval (envOf lk m)) (fun s => .ok (put m key s)) m := by
+  simp only [Line.wf, Bool.and_eq_true] at hwf
+  obtain ⟨⟨⟨⟨⟨⟨⟨⟨hi, he⟩, hk⟩, h1⟩, h2⟩, hv⟩, ht⟩, hc⟩, hcm⟩ := hwf
+  rw [parseLoop_assign_core (f + 1) indent exp key ws1 sep _ m lk hi he hk h1]
+  rw [dropWhile_append_all _ (fun x hx => List.all_eq_true.mp h2 x hx)]
+  have hstep : ∀ (s T : Str), stmtL false T = [] →
+      (match liftVars (expandVars s m lk) T with
+        | .error p => POut.panic p
+        | .ok (.error e) => .err e m
+        | .ok (.ok (v, left')) => parseLoop (f + 1) left' (put m key v) lk) =
+      assignOut (Template.subst (envOf lk m) s) (fun v => .ok (put m key v)) m := by
+    intro s T hT
+    unfold liftVars expandVars assignOut
+    generalize Template.subst (envOf lk m) s = o
+    cases o with
+    | ok v => exact parseLoop_of_stmtL_nil f T _ lk hT
+    | err e => rfl
+    | panic p => rfl
+  cases v with
+  | unq s =>
+    simp only [Value.render, Value.eval]
+    rw [extractValue_unq_eof s trail cmt m lk hv ht hc (by cases cmt <;> simp at hcm ⊢ <;> exact hcm)]
+    exact hstep s [] rfl
+  | sq items =>
+    simp only [Value.render, Value.eval, List.cons_append, List.append_assoc, List.nil_append]
+    rw [dropWhile_head_neg (by decide)]
+    rw [extractValue_quoted '\'' (Or.inr rfl) items _ m lk hv]
+    simp only [show (('\'' : Char) == '"') = false by decide, Bool.false_eq_true, if_false, assignOut]
+    exact parseLoop_of_stmtL_nil f _ _ lk (stmtL_tail_eof trail cmt ht hc)
+  | dq items =>
+    simp only [Value.render, Value.eval, List.cons_append, List.append_assoc, List.nil_append]
+    rw [dropWhile_head_neg (by decide)]
+    rw [extractValue_quoted '"' (Or.inl rfl) items _ m lk hv]
+    simp only [beq_self_eq_true, if_true]
+    exact hstep _ _ (stmtL_tail_eof trail cmt ht hc)
+
+theorem scanKey_ws_eof (ws : Str) (i : Nat) (h : nbAll ws = true) : scanKey ws i = .noDelim := by
+  have := scanKey_ws ws [] i h
+  simpa [scanKey] using this
+
+theorem locateKey_bare_eof (exp : Option Str) (key trail : Str)
+    (he : expOk exp = true) (hk : validKey key = true) (h1 : nbAll trail = true) :
+    locateKey (renderExp exp ++ (key ++ trail)) = .ok (.ok (key, [], true)) := by
+  unfold locateKey
+  rw [dropExport_render exp key _ he hk (by
+    intro c hc
+    cases trail with
+    | nil => simp at hc
+    | cons a t =>
+      simp at hc; subst hc
+      simp only [nbAll, List.all_cons, Bool.and_eq_true] at h1
+      exact isSpaceU_not_key (isSpaceNB_isSpaceU h1.1))]
+  simp only
+  rw [scanKey_key _ _ _ (validKey_all hk), scanKey_ws_eof _ _ h1]
+  simp only
+  rw [sliceFrom_le (Nat.le_refl _)]
+  obtain ⟨c, r, rfl, _⟩ := validKey_ne hk
+  simp only [List.cons_append, List.isEmpty_cons, Bool.false_eq_true, if_false, List.drop_length, List.dropWhile_nil]
+  rw [← List.cons_append, trimRightU_append_ws _ _ (nbAll_spaceU h1), trimRightU_id _ (key_lastNotSpace (validKey_all hk))]
+
+theorem parseLoop_bare_eof (f : Nat) (indent : Str) (exp : Option Str) (key trail : Str) (m : Map) (lk : Env)
+    (hi : nbAll indent = true) (he : expOk exp = true) (hk : validKey key = true) (ht : nbAll trail = true) :
+    parseLoop (f + 2) (indent ++ (renderExp exp ++ (key ++ trail))) m lk =
+      match lk key with
+      | some v => .ok (put m key v)
+      | none => .ok m := by
+  rw [parseLoop, stmtStart_eq _ _ (Nat.lt_succ_self _)]
+  simp only
+  rw [stmtL_line_start indent exp key _ hi hk, line_start_ne exp key _ hk]
+  simp only [Bool.false_eq_true, if_false]
+  rw [locateKey_bare_eof exp key trail he hk ht]
+  simp only [key_no_space (validKey_all hk), Bool.false_eq_true, if_false, if_true]
+  cases lk key with
+  | none => exact parseLoop_nil f _ lk
+  | some v => exact parseLoop_nil f _ lk
+
+/-- the last line of a file that does not end in a line feed -/
+theorem parseLoop_last_line (f : Nat) (l : Line) (m : Map) (lk : Env) (hwf : l.wf = true) :
+    parseLoop (f + 2) l.render m lk = evalFrom lk [l] m := by
+  cases l with
+  | blank ws =>
+    simp only [Line.wf] at hwf
+    simp only [Line.render, evalFrom]
+    exact parseLoop_of_stmtL_nil (f + 1) ws m lk (stmtL_ws_eof ws hwf)
+  | comment ws t =>
+    simp only [Line.wf, Bool.and_eq_true] at hwf
+    simp only [Line.render, evalFrom]
+    have := stmtL_tail_eof ws (some t) hwf.1 hwf.2
+    simp only [renderCmt] at this
+    exact parseLoop_of_stmtL_nil (f + 1) _ m lk this
+  | bare indent exp key trail =>
+    simp only [Line.wf, Bool.and_eq_true] at hwf
+    obtain ⟨⟨⟨hi, he⟩, hk⟩, ht⟩ := hwf
+    simp only [Line.render, evalFrom]
+    rw [parseLoop_bare_eof f indent exp key trail m lk hi he hk ht]
+    cases lk key <;> rfl
+  | assign indent exp key ws1 sep ws2 v trail cmt =>
+    rw [evalFrom_assign]
+    simp only [Line.render, evalFrom]
+    exact parseLoop_assign_eof f indent exp key ws1 sep ws2 v trail cmt m lk hwf
+
+theorem evalFrom_append (lk : Env) : ∀ (a b : List Line) (m : Map),
+    evalFrom lk (a ++ b) m = (evalFrom lk a m).andThen (fun m' => evalFrom lk b m')
+  | [], b, m => rfl
+  | .blank _ :: a, b, m => by simp only [List.cons_append, evalFrom]; exact evalFrom_append lk a b m
+  | .comment _ _ :: a, b, m => by simp only [List.cons_append, evalFrom]; exact evalFrom_append lk a b m
+  | .bare _ _ key _ :: a, b, m => by
+    simp only [List.cons_append, evalFrom]
+    cases lk key with
+    | none => exact evalFrom_append lk a b m
+    | some v => exact evalFrom_append lk a b _
+  | .assign i e key w1 s w2 v t c :: a, b, m => by
+    rw [List.cons_append, evalFrom_assign, evalFrom_assign, assignOut_andThen]
+    congr 1
+    funext x
+    exact evalFrom_append lk a b _
+
+theorem renderNoFinalNL_concat : ∀ (a : List Line) (l : Line), renderNoFinalNL (a ++ [l]) = render a ++ l.render
+  | [], l => by simp [renderNoFinalNL, render]
+  | x :: a, l => by
+    have ih := renderNoFinalNL_concat a l
+    cases a with
+    | nil => simp [renderNoFinalNL, render]
+    | cons y a =>
+      simp only [List.cons_append, renderNoFinalNL, render, List.append_assoc] at ih ⊢
+      rw [ih]
+
 end CV.Dotenv
